@@ -388,7 +388,7 @@ func init() {
 	for _, p := range []string{"vh_C15_"} {
 		customReplayers[p] = raceSweepReplayer
 	}
-	for _, p := range []string{"vh_C06_", "vh_C04_batch", "vh_C05_batch", "vh_C07_batch", "vh_C13_batch", "vh_C03_batch", "vh_C09_batch"} {
+	for _, p := range []string{"vh_C06_", "vh_C03_batch", "vh_C04_batch", "vh_C05_batch", "vh_C07_batch", "vh_C13_batch", "vh_C03_batch", "vh_C09_batch"} {
 		customReplayers[p] = batchSweepReplayer
 	}
 	for _, p := range []string{"vh_C01_", "vh_C05_Verify", "vh_C04_verify", "vh_C07_"} {
